@@ -56,6 +56,7 @@ func main() {
 	put(filepath.Join(repo, "util/resolve/internal/vsync/vsync.go"), "vsync.go", read(filepath.Join(tmpl, "vsync.go.txt")))
 	put(filepath.Join(repo, "util/resolve/zz_verifexport.go"), "resolve_export.go", read(filepath.Join(tmpl, "resolve_export.go.txt")))
 	put(filepath.Join(repo, "util/resolve/pypi/zz_verifexport.go"), "pypi_export.go", read(filepath.Join(tmpl, "pypi_export.go.txt")))
+	put(filepath.Join(repo, "util/maven/zz_verifexport.go"), "maven_export.go", read(filepath.Join(tmpl, "maven_export.go.txt")))
 	// 3. extra overlays (deliberate mutations for detection demos): VERIF_EXTRA_OVERLAY=json file {target: source}
 	if extra := os.Getenv("VERIF_EXTRA_OVERLAY"); extra != "" {
 		var m map[string]string
